@@ -3,6 +3,9 @@
 -/
 import PyProb.Driver.Obj
 import PyProb.Driver.Bloom
+import PyProb.Driver.Expanding
+import PyProb.Driver.CMS
+import PyProb.Driver.Cuckoo
 
 namespace PyProb.Drv
 open PyProb
@@ -90,6 +93,9 @@ def step (st : St) (line : String) : St × String :=
                 if cmd.startsWith "ba." then stepBitarray st cmd h args
                 else if cmd.startsWith "bf." then stepBloom st cmd h args
                 else if cmd.startsWith "cb." then stepCBF st cmd h args
+                else if cmd.startsWith "cm." then stepCMS st cmd h args
+                else if cmd.startsWith "ck." then stepCuckoo st cmd h args
+                else if cmd.startsWith "xb." || cmd.startsWith "rb." then stepExpanding st cmd h args
                 else (st, "bad-op")
         | [] => (st, "bad-op")
 
